@@ -58,11 +58,6 @@ def run_on(cfg: str, h: fleet.Handle, ops: list[dict[str, Any]], drv: core.Drive
             sig = dict(sig_of(cfg, h.base, op, "id-reuse"), prior_deleted=e.prior_deleted)
             return {"step": i, "op": op, "why": "id reuse: %s" % e, "signature": sig, "stats": stats}
         raised_value = obs.get("k") == "err" and obs.get("e") == "ValueError"
-        if op["op"] == "createTrial" and op.get("tmpl") and obs.get("k") == "err" and obs.get("e") == "other:_InactiveRpcError":
-            # U1 through the proxy: the servicer does not map the backend's ValueError for a template
-            # whose distributions conflict with the study; the model accepts this only in that case
-            raised_value = True
-            obs = dict(obs, e="ValueError")
         mutating = op["op"] in K.MUTATING
         dump = mutating and (r.random() < dump_p or i == len(ops) - 1)
         resp = drv.ask(K.to_driver(op, impl_raised=raised_value, dump=dump))
